@@ -1,0 +1,38 @@
+//go:build verif
+
+package kernel
+
+import (
+	"time"
+
+	"github.com/MixinNetwork/mixin/common"
+	"github.com/MixinNetwork/mixin/crypto"
+	"github.com/MixinNetwork/mixin/kernel/internal/clock"
+)
+
+// Hooks for the C30 check (peer authentication).  Add-only; nothing here is
+// compiled without the `verif` build tag.
+
+// VerifAuthNode returns a Node carrying exactly the fields that
+// BuildAuthenticationMessage and AuthenticateAs read.
+func VerifAuthNode(networkId crypto.Hash, signer common.Address, isRelayer bool) *Node {
+	return &Node{
+		IdForNetwork: signer.Hash().ForNetwork(networkId),
+		Signer:       signer,
+		isRelayer:    isRelayer,
+		networkId:    networkId,
+	}
+}
+
+// VerifClockSet moves the mock clock so that clock.Now() is (about) the given
+// instant, in nanoseconds since the Unix epoch.
+func VerifClockSet(unixNano int64) {
+	clock.Reset()
+	target := time.Unix(0, unixNano)
+	clock.MockDiff(target.Sub(time.Now()))
+}
+
+func VerifClockReset() { clock.Reset() }
+
+// VerifClockNow is the instant AuthenticateAs/BuildAuthenticationMessage see.
+func VerifClockNow() time.Time { return clock.Now() }
